@@ -52,9 +52,14 @@ def main():
         sh("git", "-C", "/repo", "worktree", "remove", "--force", WT)
     out = os.path.join(HERE, "seeded", name); os.makedirs(out, exist_ok=True)
     for f in ("patch.diff", "demo.py", "notes.md"):
-        if os.path.exists(os.path.join(src, f)): shutil.copy(os.path.join(src, f), os.path.join(out, f))
-    notes = open(os.path.join(src, "notes.md")).read() if os.path.exists(os.path.join(src, "notes.md")) else ""
+        if os.path.exists(os.path.join(src, f)) and os.path.abspath(src) != os.path.abspath(out): shutil.copy(os.path.join(src, f), os.path.join(out, f))
     meta["needs_to_manifest"] = "see notes.md"
+    old = os.path.join(out, "meta.json")
+    if os.path.exists(old):  # keep the hand-written description of an earlier confirmation
+        prev = json.load(open(old))
+        for k in ("what_the_change_does", "needs_to_manifest", "result"):
+            if k in prev:
+                meta[k] = prev[k]
     json.dump(meta, open(os.path.join(out, "meta.json"), "w"), indent=1)
     print(json.dumps({k: meta[k] for k in ("name", "confirmed", "caught_by")}), {c: {t: v["exit"] for t, v in r.items()} for c, r in meta.get("checks", {}).items()})
 main()
